@@ -652,6 +652,33 @@ fn box_deep_equality(obs: &mut Obs, thorough: bool) -> Res {
     Ok(())
 }
 
+/// patterns and subjects that come from the DOCUMENT, drawn from strings no query literal could spell without
+/// escapes: metacharacters anywhere, a lone backslash at the end (`C:\data\`), unbalanced brackets, empty strings
+fn random_regex_from_document(src: &mut Src, obs: &mut Obs) -> Res {
+    let chars = ['a', 'b', '\\', '\\', '(', ')', '[', ']', '{', '}', '*', '+', '?', '|', '^', '$', '.', '-', ',', '0', '1', '2', 'p', 'L', '\'', '"', ' ', '\n', '\u{e9}'];
+    let mut hostile = |src: &mut Src| -> String {
+        if src.chance(1, 6) {
+            return src.pick(&["C:\\data\\", "\\", "a\\", "\\\\", "[\\", "(\\", "\\p", "\\p{", "\\p{L", "a{", "a{1", "a{1,", "a{,1}", "[a-", "[^", "(?", "(?:", "(?i)a", "\\1", "\\b", "\\d+", "$^", "a**", "a{999999999}", "\\u{41}", "\\x41", "[[:alpha:]]"]).to_string();
+        }
+        let n = src.below(7);
+        (0..n).map(|_| *src.pick(&chars)).collect()
+    };
+    let p = hostile(src);
+    let n = 1 + src.below(4);
+    let l: Vec<Value> = (0..n).map(|_| if src.chance(1, 5) { json!(src.below(3)) } else { json!(hostile(src)) }).collect();
+    let doc = json!({"p": p, "l": l, "o": {"p": hostile(src)}});
+    let q = *src.pick(&[
+        "$.l[?match(@, $.p)]", "$.l[?search(@, $.p)]", "$.l[?match($.p, @)]", "$.l[?search($.p, @)]", "$..[?search(@, @)]", "$..[?match(@, @)]", "$.l[?!search(@, $.o.p)]",
+        "$[?match(@.p, @.p)]", "$.l[?search(@, $.p) || match(@, $.o.p)]", "$.l[?length(@) > 1 && search(@, $.p)]",
+    ]);
+    obs.label("regex-from-document");
+    obs.nontrivial(&(q, doc.to_string()), || json!({"query": q, "doc": doc}));
+    match all_entry_points(q, &doc, obs)? {
+        Out::Ok => Ok(()),
+        Out::Err => Err(Failure::new("a valid query with match/search is refused", json!({"query": q, "doc": doc}))),
+    }
+}
+
 fn direct(case: &Value, obs: &mut Obs) -> Res {
     let q = case["query"].as_str().unwrap_or("");
     all_entry_points(q, &case["doc"], obs).map(|_| ())
@@ -679,6 +706,7 @@ pub fn prop() -> Prop {
             Sub { name: "random-near-miss", kind: Kind::Random { f: random_near_miss, quick: 160_000, thorough: 3_200_000, len: 600 } },
             Sub { name: "random-extreme-text", kind: Kind::Random { f: random_extreme_text, quick: 80_000, thorough: 1_600_000, len: 64 } },
             Sub { name: "random-programmatic", kind: Kind::Random { f: random_programmatic, quick: 80_000, thorough: 1_600_000, len: 64 } },
+            Sub { name: "random-regex-from-document", kind: Kind::Random { f: random_regex_from_document, quick: 60_000, thorough: 1_200_000, len: 120 } },
             Sub { name: "random-eval", kind: Kind::Random { f: random_eval, quick: 200_000, thorough: 4_000_000, len: 500 } },
         ],
         direct: Some(direct),
